@@ -232,7 +232,7 @@ macro_rules! filled {
     ($v:expr, $n:expr, $k:expr) => {
         match $crate::catalogue::val(&$v, $n, $k) {
             Some(ok) => assert!(ok, "C07: a field is not filled from the entry under its effective key"),
-            None => assert!(false, "C08: success although a field without default is absent"),
+            None => assert!(false, "C07: a field was filled although the entry under its effective key is absent (it was read from another entry)"),
         }
     };
 }
